@@ -44,6 +44,7 @@ import ASV.Proofs.RegionExtractCores
 import ASV.Proofs.RegionAnnotationsRead
 import ASV.Proofs.RegionExtractMotifOrder
 import ASV.Proofs.RegionExtractTies
+import ASV.Proofs.RegionExtractTiesCross
 namespace ASV.C12
 open ASV ASV.RegionExtract
 
@@ -262,6 +263,20 @@ theorem ties_in_file_order_partial (rd : RegionData) (rec : BioRecord) (w : Writ
     tiesInFileOrder (·.q.subNumber) (ofType "subregion" w.extract.features) = true :=
   written_ties rd rec w h hwf hcons hplain hP hS
 
+/-- The same for every region, over the origin or not.  The file of a region over the origin is put together from
+    three groups of features — before the origin, over it, after it —, each in the record's order; areas with the
+    same position and size in the file have the same location (`area_posPair_inj`: one forward part, or a forward
+    pair over the origin), so they fall into the same group and keep the record's order (`cross_file_order`). -/
+theorem ties_in_file_order (rd : RegionData) (rec : BioRecord) (w : Written)
+    (h : writeToGenbank rd rec = .ok w) (hwf : wfInput rd rec = true) (hcons : consistent rd rec = true)
+    (hP : InNumberOrder "protocluster" (·.q.protoNumber) rec.features)
+    (hS : InNumberOrder "subregion" (·.q.subNumber) rec.features) :
+    tiesInFileOrder (·.q.protoNumber) (ofType "protocluster" w.extract.features) = true ∧
+    tiesInFileOrder (·.q.subNumber) (ofType "subregion" w.extract.features) = true := by
+  cases hc : rd.crossesOrigin with
+  | false => exact written_ties rd rec w h hwf hcons hc hP hS
+  | true => exact written_ties_cross rd rec w h hwf hcons hc hP hS
+
 /-- Not vacuous: two subregions (record-wide numbers 2 and 3) on the same coordinates behind another one; the region
     lists number 3 first -/
 def exTieRec : BioRecord :=
@@ -285,6 +300,23 @@ example : (writeToGenbank exTieSubs exTieRec).toOption.map (fun w =>
       (w.extract.features.map fun f => (f.tag, f.q.subNumber, f.q.subNumbers),
        tiesInFileOrder (·.q.subNumber) (ofType "subregion" w.extract.features))) =
     some ([(2, some 1, []), (3, some 2, []), (4, none, [1, 2])], true) := by decide
+
+/-- … and over the origin: two subregions `[16:20]+[0:6]` (numbers 1 and 2 of the record), listed 2, 1 by the region -/
+def exTieCrossRec : BioRecord :=
+  { seq := "ACGTACGTACGTACGTACGT".toList,
+    features := [
+      ⟨0, "subregion", .compound [⟨16, 20, .fwd⟩, ⟨0, 6, .fwd⟩], { subNumber := some 1 }⟩,
+      ⟨1, "subregion", .compound [⟨16, 20, .fwd⟩, ⟨0, 6, .fwd⟩], { subNumber := some 2 }⟩,
+      ⟨2, "region", .compound [⟨16, 20, .fwd⟩, ⟨0, 6, .fwd⟩], { subNumbers := [1, 2] }⟩] }
+def exTieCross : RegionData :=
+  { start := 16, «end» := 6, cands := [],
+    subs := [⟨2, .compound [⟨16, 20, .fwd⟩, ⟨0, 6, .fwd⟩]⟩, ⟨1, .compound [⟨16, 20, .fwd⟩, ⟨0, 6, .fwd⟩]⟩] }
+example : wfInput exTieCross exTieCrossRec = true ∧ consistent exTieCross exTieCrossRec = true ∧
+    exTieCross.crossesOrigin = true := by decide
+example : (writeToGenbank exTieCross exTieCrossRec).toOption.map (fun w =>
+      (w.extract.features.map fun f => (f.tag, f.q.subNumber, f.q.subNumbers),
+       tiesInFileOrder (·.q.subNumber) (ofType "subregion" w.extract.features))) =
+    some ([(0, some 1, []), (1, some 2, []), (2, none, [1, 2])], true) := by decide
 
 /-- The full statement: the file, taken on its own, is what a record that loads it expects — areas of
     each kind numbered `1..n` in load order, every reference by number resolving, `core_location`
